@@ -1,5 +1,6 @@
 // C17 — endpoints move exactly N octets in order whatever the driver does.
 #include "support/endpoints.hpp"
+#include <sys/mman.h>
 
 typedef std::vector<uint8_t> Bytes;
 static const int HARD = -EIO;
@@ -167,6 +168,59 @@ static void run_plumbing(const Case &c) {
     }
 }
 
+// ---- transfers of 2^31 and more octets per driver call: a virtual driver that claims the count and touches only the edges of
+//      each span, on a MAP_NORESERVE destination (address space, not memory)
+struct Virt { uint8_t *base; size_t total, pos = 0, calls = 0, idx = 0; std::vector<size_t> per_call; bool contiguous = true, over = false; };
+static ssize_t virt_src_cb(void *d, void *out, size_t n) {
+    Virt *v = (Virt *)d; vp::tick(); v->calls++;
+    size_t want = v->idx < v->per_call.size() ? v->per_call[v->idx++] : (size_t)-1;
+    size_t k = std::min(std::min(want, n), v->total - v->pos);
+    if (n > v->total - v->pos) v->over = true;                       // asked for more than is left of the N requested
+    if ((uint8_t *)out != v->base + v->pos) v->contiguous = false;   // the span must continue exactly behind the previous one
+    if (k) { ((uint8_t *)out)[0] = (uint8_t)(v->pos * 7 + 1); ((uint8_t *)out)[k - 1] = (uint8_t)((v->pos + k - 1) * 7 + 1); }
+    v->pos += k;
+    return (ssize_t)k;
+}
+static ssize_t virt_snk_cb(void *d, const void *in, size_t n) {
+    Virt *v = (Virt *)d; vp::tick(); v->calls++;
+    size_t want = v->idx < v->per_call.size() ? v->per_call[v->idx++] : (size_t)-1;
+    size_t k = std::min(std::min(want, n), v->total - v->pos);
+    if (n > v->total - v->pos) v->over = true;
+    if ((const uint8_t *)in != v->base + v->pos) v->contiguous = false;
+    v->pos += k;
+    return (ssize_t)k;
+}
+static void huge_transfers() {
+    struct Sc { const char *name; size_t n; std::vector<size_t> per_call; };
+    std::vector<Sc> scs = {
+        {"1MiB-one-call", (size_t)1 << 20, {}}, {"INT_MAX-one-call", (size_t)INT_MAX, {}}, {"2^31-one-call", (size_t)1 << 31, {}}, {"2^31+16-one-call", ((size_t)1 << 31) + 16, {}},
+        {"2^32-4-then-rest", ((size_t)1 << 32) + 8, {((size_t)1 << 32) - 4}}, {"2^32-11-then-rest", ((size_t)1 << 32) + 8, {((size_t)1 << 32) - 11}}, {"2^32-then-rest", ((size_t)1 << 32) + 5, {(size_t)1 << 32}},
+        {"2^31-twice", (size_t)1 << 32, {(size_t)1 << 31}}, {"2^16-steps", ((size_t)1 << 20) + 3, std::vector<size_t>(15, (size_t)1 << 16)},
+    };
+    for (auto &sc : scs) for (int side = 0; side < 2; side++) {
+        void *mem = mmap(nullptr, sc.n + 4096, PROT_READ | PROT_WRITE, MAP_PRIVATE | MAP_ANONYMOUS | MAP_NORESERVE, -1, 0);
+        if (mem == MAP_FAILED) { vp::stats().dontcare++; vp::cls("huge-transfer-skipped-no-address-space"); continue; }
+        Virt v; v.base = (uint8_t *)mem; v.total = sc.n; v.per_call = sc.per_call;
+        Case c{side, true, true, sc.n, 0, {}, {}, 0, 0, 0};
+        std::string rep = vp::fmt("huge %d %zu", side, sc.n); for (size_t p : sc.per_call) rep += vp::fmt(" %zu", p); rep += "\n";
+        ssize_t r = -1; bool done = false;
+        if (VP_BUDGET(200)) {
+            if (side == 0) { Source s; chunk_source_init(&s, virt_src_cb, &v); r = source_get_chunk(&s, mem, sc.n); }
+            else { Sink s; chunk_sink_init(&s, virt_snk_cb, &v); r = sink_put_chunk(&s, mem, sc.n); }
+            vp::budget().armed = false; done = true;
+        }
+        std::string key, msg;
+        const char *api = side == 0 ? "source_get_chunk" : "sink_put_chunk";
+        if (!done) { key = "huge:no-progress"; msg = vp::fmt("%s(%s): driver called %zu times without completion", api, sc.name, v.calls); }
+        else if (r != (ssize_t)sc.n) { key = "huge:return"; msg = vp::fmt("%s(%s): returned %zd for N=%zu (stream advanced by %zu)", api, sc.name, r, sc.n, v.pos); }
+        else if (v.pos != sc.n) { key = "huge:moved"; msg = vp::fmt("%s(%s): moved %zu of %zu octets", api, sc.name, v.pos, sc.n); }
+        else if (!v.contiguous) { key = "huge:placement"; msg = vp::fmt("%s(%s): a span was not placed directly behind the previous one (octets overwritten / sent twice)", api, sc.name); }
+        else if (v.over) { key = "huge:asked-more-than-left"; msg = vp::fmt("%s(%s): driver asked for more than the remaining count", api, sc.name); }
+        munmap(mem, sc.n + 4096);
+        vp::count(); vp::cls("huge-transfers"); vp::nontrivial(vp::mix(sc.n, side + 555));
+        if (!key.empty()) vp::fail(std::string(api) + ":" + key, msg, rep);
+    }
+}
 static void run_case(const Case &c) {
     g_cur = c;
     if (c.api < 10) run_chunk_api(c); else run_plumbing(c);
@@ -181,7 +235,7 @@ static void run() {
     size_t maxscript = a.thorough() ? 7 : 5;
     vp::stats().rule = vp::fmt("enum: every driver script of length <= %zu over {1,2,3,all,0,EINTR,EAGAIN,hard error} x N in 1..6 x octet/chunk driver for source_get_chunk, sink_put_chunk "
                                "and the at-most variants; N in {0, SSIZE_MAX+1}; plumbing (sts_cbc/n_cbc/drain_cbc/n/drain and the four *_aux calls) over stream lengths 0..12, counts around "
-                               "region multiples, partial-transfer and hard-error scripts on both sides, aux regions [offset,used) of size 1..8; random long transfers", maxscript);
+                               "region multiples, partial-transfer and hard-error scripts on both sides, aux regions [offset,used) of size 1..8; random long transfers; single driver calls of 2^31..2^32 octets on a virtual driver (address space only)", maxscript);
     vp::stats().exhaustive = true;
     static const int SYM[8] = {1, 2, 3, ep::ALL, 0, -EINTR, -EAGAIN, HARD};
     uint64_t idx = 0;
@@ -229,6 +283,7 @@ static void run() {
                     }
                     if (vp::too_many_failures()) return;
                 }
+    if (a.shard == a.nshards - 1) huge_transfers();
     // random long transfers
     vp::Rng rng(a.seed * 2749 + a.shard);
     size_t nrand = (a.thorough() ? 20000 : 1500) / a.nshards;
@@ -254,6 +309,7 @@ static void run() {
 }
 static bool replay(const std::string &text) {
     Case c;
+    if (text.rfind("huge", 0) == 0) { huge_transfers(); return vp::stats().failures.empty(); }
     if (!parse(text, c)) return false;
     vp::CaseScope scope([] { return ser(g_cur); });
     run_case(c);
